@@ -55,7 +55,9 @@ CLAIMED = {
                  'ids must be non-empty strings (witness in Proofs/MajorityFacts.v).',
                  'Coq proof of the tournament invariant + vm_compute correspondence and checker on Go outputs', 'C11'),
     'C12': claim('Theorems (Properties/C12.v, any carrier with OrdLaws): aspect_passes_checker: survivors first; eliminated in reverse order; each reports the level/criterion/threshold it '
-                 'really failed after passing every earlier check; stop as soon as one is left. Tie: full correspondence for pairwise distinct weights + checker on all.',
+                 'really failed after passing every earlier check; stop as soon as one is left; aspect_is_elimination: a declarative inductive relation (agenda of checks level by level, criterion by '
+                 'criterion in descending weight order, the last alternative spared when all would go) of which every returned ranking is a run - deterministic, loses nobody, always leaves a survivor; '
+                 'C12_ok_sound: the checker on real responses implies the per-entry clauses in declarative form. Tie: full correspondence for pairwise distinct weights + checker on all.',
                  'tied weights: only the order-free clauses (Go breaks ties with draws inside an unstable sort).',
                  'Coq proof of the elimination walk + vm_compute correspondence and checker on Go outputs', 'C12'),
     'C13': claim('Theorems (Properties/C13.v, any carrier with OrdLaws): satisfaction_passes_checker: accepted entries report and satisfy their level and fail every earlier one; '
